@@ -193,6 +193,17 @@ Motion == hist # <<>> => \A i \in Free(Last) : Last.res[i] = Last.F[i]
 Prescribed == (hist # <<>> /\ Last.cons) =>
                  Last.x[2] = IF Last.p.algo = "euler_explicit" THEN Zero ELSE Last.g
 
+(* One step is LINEAR in (previous state, load, prescribed value): the data scaled by k gives the step scaled by k, whatever  *)
+(* the magnitude.  TLC confirms it on k = 2, 1/2 for every step it explores; the harness replays behaviours with the data      *)
+(* scaled by powers of ten (a displacement of 1e-13 m is as good a state as one of order one), expecting the scaled step.      *)
+ScaleStep(k, r) == StepRec(r.p, r.matv, r.cons, VScale2(k, r.F), Mul(k, r.g), VScale2(k, r.pre[1]), VScale2(k, r.pre[2]), VScale2(k, r.pre[3]))
+Homogeneous ==
+    hist # <<>> =>
+    \A k \in {Two, Half} :
+        LET r == Last  s == ScaleStep(k, r) IN
+          /\ s.post = <<VScale2(k, r.post[1]), VScale2(k, r.post[2]), VScale2(k, r.post[3])>>
+          /\ s.x = VScale2(k, r.x)
+
 (* the lattices are what they claim to be, and a refused call changed nothing: the step after it is a step of the previous scheme *)
 LatticeAdmissible == (\A p \in AlgoPrms : Admissible(p)) /\ (\A q \in Refusals : ~Admissible(q))
 RefusedKeeps == (Len(hist) > 1 /\ Last.refused.algo # "none") => Last.p = hist[Len(hist) - 1].p
